@@ -205,13 +205,16 @@ def _srf(case, tags, **override):
         start["len_scale"] = spec["len_scale"] * 3.0
     model = lib(build_model, start, _what="model construction", _tags=tags)
     if reuse:
-        # an existing vector-field SRF whose model is changed in place afterwards (no new seed): the next field
-        # must be the one of the current model
-        srf = gs.SRF(model, generator="VectorField", seed=case["seed"], mode_no=case["mode_no"], mean_velocity=mean_u, sampling=case.get("sampling", "auto"))
+        # an existing vector-field SRF whose model (or mode number) is changed in place afterwards (no new seed): the next field
+        # must be the one of the current settings
+        n0 = case["mode_no"] * (4 if reuse == "mode_no" else 1)
+        srf = gs.SRF(model, generator="VectorField", seed=case["seed"], mode_no=n0, mean_velocity=mean_u, sampling=case.get("sampling", "auto"))
         with common.quiet():
             srf(np.zeros((start["dim"], 1)))
             if reuse == "dim":
                 srf.model.dim = spec["dim"]
+            elif reuse == "mode_no":
+                srf.generator.mode_no = case["mode_no"]
             else:
                 srf.model.len_scale = spec["len_scale"]
             srf(np.zeros((spec["dim"], 1)))
@@ -385,7 +388,7 @@ def gen_fd(draw, tier="quick"):
         "pos": draw(_points(dim, spec["len_scale"], n_max=3, mag=(1e-2, 30.0))),
         "variant": draw(st.sampled_from(["points", "points", "structured"])),
     }
-    r = draw(st.sampled_from([None, None, None, "dim", "len_scale"]))
+    r = draw(st.sampled_from([None, None, None, "dim", "len_scale", "mode_no"]))
     if r == "dim" and (spec["cls"] in ("JBessel", "SuperSpherical", "TPLSimple") or gens.max_valid_dim(spec["cls"]) < 3):
         r = "len_scale"  # dimension-dependent argument bounds are C14's known finding K6
     if r:
